@@ -92,6 +92,98 @@ def named_local_defs(ctx, body, name):
     return out
 
 
+def all_timers_stopped_before(F, body, goals):
+    """(ok, why): `body` contains the loop `for timer in Timer::VALUES { timers.stop(timer) }` (the structural statement of
+    close_common's effect) and none of the `goals` blocks can be reached without running it to exhaustion: the stop argument
+    IS the item of a loop over exactly the constant Timer::VALUES, every iteration reaches the stop, the loop is left towards
+    a goal only over the None edge of its next(), and no goal is reachable from the entry around the loop."""
+    ok, why = False, 'no TimerTable::stop call whose argument is the item of a loop over Timer::VALUES'
+    goals = list(goals)
+    for c in body.calls_to('TimerTable::stop'):
+        src = loop_item_source(arg_desc(F, c, 1))
+        if src is None:
+            continue
+        if not is_timer_values(src[0]):
+            why = 'the loop stopping the timers iterates %s, not the whole Timer::VALUES' % D.render(src[0])[:120]
+            continue
+        head = src[1]
+        hb = [br for br in branches(F, body) if br.bb != c.bb and br.desc[0] == 'discr' and br.desc[1][0] == 'call' and len(br.desc[1]) > 4 and br.desc[1][4] == head]
+        if not hb:
+            why = 'the Some/None test of the loop over Timer::VALUES was not found'
+            continue
+        some = hb[0].target(1)
+        # every iteration stops its timer, the loop is left only when the table is exhausted, and the loop is always entered
+        if path_avoiding(body, [some], [head], {c.bb}) is not None:
+            why = 'an iteration of the loop over Timer::VALUES can skip timers.stop'
+        elif path_avoiding(body, [some], goals, {head}) is not None:
+            why = 'the loop over Timer::VALUES can be left before the table is exhausted'
+        elif path_avoiding(body, [0], goals, {head}) is not None:
+            why = 'the loop over Timer::VALUES can be bypassed'
+        else:
+            return True, ''
+    return ok, why
+
+
+def arith_operands(d, op):
+    """operands of `a <op> b` in primitive ('bin') or operator-trait call form (`<Instant as Add>::add(a, b)`), else None"""
+    if d[0] == 'bin' and d[1] == op:
+        return [d[2], d[3]]
+    if d[0] == 'call' and len(d[3]) == 2 and d[1].rsplit('::', 1)[-1] == op.lower() and ('as %s>' % op) in d[1]:
+        return list(d[3])
+    return None
+
+
+def is_close_deadline(d):
+    """exactly `now + 3 * self.pto(..)` (either operand order): the deadline set_close_timer arms"""
+    ab = arith_operands(d, 'Add')
+    if ab is None:
+        return False
+    for now, rest in (ab, ab[::-1]):
+        if now[0] == 'param' and now[2] == 'now':
+            xy = arith_operands(rest, 'Mul')
+            if xy is not None and any(k[0] == 'const' and str(k[2]) == '3' and p[0] == 'call' and p[1] == 'Connection::pto' for k, p in (xy, xy[::-1])):
+                return True
+    return False
+
+
+def close_timer_armed_before(F, body, site_bb):
+    """the structural statement of set_close_timer's effect, for a caller that has the helper's body inlined: every path
+    entry -> site passes `timers.set(Timer::Close, now + 3 * pto(..))` (literally Timer::Close, exactly that deadline)"""
+    arms = {c.bb for c in body.calls_to('TimerTable::set')
+            if c.bb != site_bb and arg_desc(F, c, 1) == ('agg', 'adt', 'timer::Timer::Close', (), ()) and is_close_deadline(arg_desc(F, c, 2))}
+    return bool(arms) and site_bb in body.live_blocks() and path_avoiding(body, [0], [site_bb], arms) is None
+
+
+def closed_transition_escapes(F, body, starts, sinks):
+    """`starts` = [(block, is_statement)] sites that may move self.state into a closed state; `sinks` = blocks of the
+    close_common calls.  Returns the starts from which a normal return is reachable without a sink, when the edges that are
+    infeasible for "open before the site, closed after it" are removed: the FALSE edge of every test of exactly
+    self.state.is_closed() evaluated after the site (closed states are absorbing) and the TRUE edge of every such test
+    evaluated before it (the call dominates the site and is not reachable from it: `was_closed`, under any name).  Operand
+    order of `!was_closed && is_closed()` and temporaries holding either value are irrelevant: only where the call is
+    evaluated counts."""
+    tests = []
+    for br, f, t in call_tests(F, body, 'State::is_closed', 'state'):
+        inner = peel_not(br.desc)[0]
+        if f != t and len(inner) > 4 and isinstance(inner[4], int):
+            tests.append((br, inner[4], f, t))
+    bad = []
+    rets = set(body.return_blocks())
+    for sb, is_stmt in starts:
+        after = body.reachable_strict(sb) | ({sb} if is_stmt else set())
+        cut = set()
+        for br, cb, f, t in tests:
+            fresh = cb in after
+            stale = cb != sb and body.dominates(cb, sb)
+            if fresh and not stale:
+                cut.add((br.bb, f))
+            elif stale and not fresh:
+                cut.add((br.bb, t))
+        if body.reachable_strict(sb, avoid=sinks, avoid_edges=cut) & rets:
+            bad.append(sb)
+    return bad
+
+
 def rule_a(ctx):
     F = ctx.facts
     dr = state_sets(ctx, 'Drained')
@@ -126,14 +218,24 @@ def rule_a(ctx):
         ok2 = any(hp.dominates(br.bb, e.bb) and e.bb not in hp.reachable_from(br.target(0), avoid=[br.bb]) for br in isd)
         ctx.check(ok1 and ok2, 'a', 'drained_event_only_on_transition', hp, e.where(), 'push only if !was_drained && is_drained()', 'handle_packet can emit Drained when the connection was already drained / is not drained')
         st = [c for c in hp.calls_to('TimerTable::stop') if timer_const(arg_desc(F, c, 1), 'Close')]
-        okc = bool(st) and must_follow(F, hp, e.bb, ['TimerTable::stop'], depth=0, extra_blocks=()) is None and any(c.bb in hp.reachable_from(e.bb) for c in st)
-        ctx.check(okc, 'a', 'close_timer_stopped_when_drained_by_packet', hp, e.where(), 'timers.stop(Timer::Close) follows the Drained push',
+        # the push and the stop are independent statements: either every path from the push to a return passes
+        # stop(Timer::Close), or every path to the push does, with nothing that can arm a timer in between (every path from
+        # the entry AND from behind every call that may reach TimerTable::set passes the stop before the push)
+        stb = {c.bb for c in st}
+        rearm = may_sites(F, hp, ['TimerTable::set'], 3)
+        after_ok = path_avoiding(hp, hp.succ[e.bb], hp.return_blocks(), stb) is None
+        before_ok = path_avoiding(hp, [0] + [x for r in rearm for x in hp.succ[r]], [e.bb], stb) is None
+        okc = bool(st) and (after_ok or before_ok)
+        ctx.check(okc, 'a', 'close_timer_stopped_when_drained_by_packet', hp, e.where(), 'timers.stop(Timer::Close) %s the Drained push' % ('follows' if after_ok else 'immediately precedes'),
                   'after draining from handle_packet (stateless reset on a closed connection) the Close timer stays armed: it would emit Drained a second time')
     # kill stops all timers first; handle_timeout stops the expired timer before its arm
     k = ctx.pfn('Connection::kill')
     for e in [c for c in ev if F.root_of(c.body).id == k.id]:
         p = must_precede(F, k, e.bb, ['Connection::close_common'], depth=0)
-        ctx.check(p is None, 'a', 'kill_stops_timers_first', k, e.where(), 'close_common dominates the Drained push', 'kill emits Drained without stopping the timers')
+        # close_common inlined: its effect is "every element of Timer::VALUES is stopped" (same test as b/close_common_stops_all_timers)
+        inl, whyk = (True, '') if p is None else all_timers_stopped_before(F, k, [e.bb])
+        ctx.check(p is None or inl, 'a', 'kill_stops_timers_first', k, e.where(), 'close_common (or its loop stopping every Timer::VALUES element) dominates the Drained push',
+                  'kill emits Drained without stopping the timers (no close_common call in front of the push; inlined form: %s)' % whyk)
     ht = ctx.pfn('Connection::handle_timeout')
     for e in [c for c in ev if F.root_of(c.body).id == ht.id]:
         p = must_precede(F, ht, e.bb, ['TimerTable::stop'], depth=0)
@@ -168,53 +270,31 @@ def rule_b(ctx):
     ctx.floor('b', 'closed_state_sites', n, 7)
     ci = ctx.pfn('Connection::close_inner')
     for c in [x for x in state_sets(ctx, 'Closed') if F.root_of(x.body).id == ci.id]:
-        ctx.check(must_precede(F, ci, c.bb, ['Connection::close_common'], 0) is None and must_precede(F, ci, c.bb, ['Connection::set_close_timer'], 0) is None, 'b', 'local_close_stops_timers_and_arms_close', ci, c.where(),
-                  'close_common + set_close_timer dominate state = Closed', 'close_inner enters Closed without close_common/set_close_timer')
+        # either helper may be inlined: close_common = every Timer::VALUES element stopped, set_close_timer = timers.set(Timer::Close, now + 3 * pto)
+        stops = must_precede(F, ci, c.bb, ['Connection::close_common'], 0) is None or all_timers_stopped_before(F, ci, [c.bb])[0]
+        arms = must_precede(F, ci, c.bb, ['Connection::set_close_timer'], 0) is None or close_timer_armed_before(F, ci, c.bb)
+        ctx.check(stops and arms, 'b', 'local_close_stops_timers_and_arms_close', ci, c.where(),
+                  'close_common + set_close_timer (or their inlined bodies) dominate state = Closed', 'close_inner enters Closed without %s' % ' / '.join(
+                      ([] if stops else ['close_common (all timers stopped)']) + ([] if arms else ['set_close_timer (Close timer armed at now + 3 * pto)'])))
     cl = [w for w in field_writes(F, CONN, 'close', crate='quinn_proto') if F.root_of(w.body).id == ci.id and w.kind == 'assign']
     ctx.check(bool(cl), 'b', 'local_close_requests_close_packet', ci, ci.where(), 'self.close = true', 'close_inner no longer requests a close packet')
     # handle_packet tail: every path after processing passes the !was_closed && is_closed() test which reaches close_common
     hp = ctx.pfn('Connection::handle_packet')
-    nbr = branches(F, hp, stop_named=True)
-    wc = [br for br in nbr if peel_not(br.desc)[0][0] == 'local' and peel_not(br.desc)[0][2] == 'was_closed']
     cc = hp.calls_to('Connection::close_common')
-    ok = bool(wc) and bool(cc)
-    for s in hp.calls_to('Connection::process_decrypted_packet'):
-        if path_avoiding(hp, hp.succ[s.bb], hp.return_blocks(), {br.bb for br in wc}) is not None:
-            ok = False
-    for br in wc:
-        # on was_closed == false, is_closed() == true edge close_common is reached
-        isc = [b2 for b2 in branches(F, hp) if b2.desc[0] == 'call' and b2.desc[1] == 'State::is_closed' and hp.dominates(br.bb, b2.bb)]
-        if not any(any(c.bb in hp.reachable_from(b2.target(1)) and path_avoiding(hp, [b2.target(1)], hp.return_blocks(), {c.bb for c in cc}) is None for c in cc) for b2 in isc):
-            ok = False
-    ctx.check(ok, 'b', 'packet_induced_close_stops_timers', hp, hp.where(), '!was_closed && is_closed() -> close_common on every path after processing', 'a close caused by a packet/error does not always reach close_common')
+    proc = hp.calls_to('Connection::process_decrypted_packet')
+    starts = [(s.bb, False) for s in proc]
+    for w in field_writes(F, CONN, 'state', crate='quinn_proto'):
+        if w.body.id == hp.id and w.kind in ('assign', 'callresult'):
+            starts.append((w.bb, w.kind == 'assign'))
+    esc = closed_transition_escapes(F, hp, starts, {c.bb for c in cc})
+    ok = bool(proc) and bool(cc) and not esc
+    ctx.check(ok, 'b', 'packet_induced_close_stops_timers', hp, hp.where(), '!was_closed && is_closed() -> close_common on every path after processing (%d state-changing sites)' % len(starts),
+              'a close caused by a packet/error does not always reach close_common: with the connection open before and closed after the site in block(s) %s a return is reachable without it' % sorted(set(esc)))
     sct = hp.calls_to('Connection::set_close_timer')
     ctx.check(bool(sct) and all(any(hp.dominates(c.bb, s.bb) for c in cc) for s in sct), 'b', 'packet_induced_close_arms_close_timer', hp, hp.where(), 'set_close_timer after close_common unless drained', 'set_close_timer missing from the packet-induced close')
     # close_common stops every timer: iterates Timer::VALUES and calls stop
     ccb = ctx.pfn('Connection::close_common')
-    okc, whyc = False, 'no TimerTable::stop call whose argument is the item of a loop over Timer::VALUES'
-    for c in ccb.calls_to('TimerTable::stop'):
-        src = loop_item_source(arg_desc(F, c, 1))
-        if src is None:
-            continue
-        if not is_timer_values(src[0]):
-            whyc = 'the loop stopping the timers iterates %s, not the whole Timer::VALUES' % D.render(src[0])[:120]
-            continue
-        head = src[1]
-        hb = [br for br in branches(F, ccb) if br.bb != c.bb and br.desc[0] == 'discr' and br.desc[1][0] == 'call' and len(br.desc[1]) > 4 and br.desc[1][4] == head]
-        if not hb:
-            whyc = 'the Some/None test of the loop over Timer::VALUES was not found'
-            continue
-        some = hb[0].target(1)
-        # every iteration stops its timer, the loop is left only when the table is exhausted, and the loop is always entered
-        if path_avoiding(ccb, [some], [head], {c.bb}) is not None:
-            whyc = 'an iteration of the loop over Timer::VALUES can skip timers.stop'
-        elif path_avoiding(ccb, [some], ccb.return_blocks(), {head}) is not None:
-            whyc = 'the loop over Timer::VALUES can be left before the table is exhausted'
-        elif path_avoiding(ccb, [0], ccb.return_blocks(), {head}) is not None:
-            whyc = 'close_common can return without running the loop over Timer::VALUES'
-        else:
-            okc = True
-            break
+    okc, whyc = all_timers_stopped_before(F, ccb, ccb.return_blocks())
     ctx.check(okc, 'b', 'close_common_stops_all_timers', ccb, ccb.where(), 'for timer in Timer::VALUES { stop(timer) }', 'close_common no longer stops every timer in Timer::VALUES: ' + whyc)
     # no re-arming on closed connections
     for fn, fld in (('Connection::set_loss_detection_timer', 'LossDetection'), ('Connection::reset_idle_timeout', 'Idle')):
